@@ -266,7 +266,7 @@ def valgrind_unit():
     return dict(custom=run, prebuild_thorough=[VT], prebuild_quick=[])
 
 PROPS['C09'] = dict(
-    units=[valgrind_unit(), dict(target=HIST_T, quick=dict(args=['--focus', 'C09'], scale=4.0), thorough=dict(args=['--focus', 'C09', '--max-size', '200'], scale=12.0, shards=8)),
+    units=[valgrind_unit(), et_unit('C09', '', 0.6, 3.0), dict(target=HIST_T, quick=dict(args=['--focus', 'C09'], scale=4.0), thorough=dict(args=['--focus', 'C09', '--max-size', '200'], scale=12.0, shards=8)),
            fuzz_unit(1, 250000, 1200000)],
     rule=HIST_RULE + 'Oracle (C09): no ASan / UBSan / _GLIBCXX_ASSERTIONS (rapidcheck build) or _GLIBCXX_DEBUG (libFuzzer build) report, no foreign exception (std::out_of_range, bad_optional_access, ...) and no BSplineException from a call whose preconditions hold; '
          'checked accessors (Grid::at, Support::at, absoluteFromRelative, front/back) throw exactly for indices outside the view and otherwise return the element grid[start+index]. '
@@ -524,5 +524,5 @@ PROPS['C20'] = dict(
     assumptions=[SAN, 'Eigen 3 as installed is trusted'],
 )
 
-for _p in ('C01', 'C02', 'C03', 'C04', 'C05', 'C06', 'C07', 'C12', 'C19'):
+for _p in ('C01', 'C02', 'C03', 'C04', 'C05', 'C06', 'C07', 'C09', 'C12', 'C19'):
     PROPS[_p]['rule'] = PROPS[_p]['rule'] + ET_RULE
